@@ -474,6 +474,79 @@ func atomInvariant(P *Prover, a *Atom, body map[*ssa.BasicBlock]bool) bool {
 }
 
 // ruleDomain (C20): every call of the callback parameter has arguments (a, b) with 0 <= b < a < n.
+// domainWalk checks every call of the callback value cb inside fn and follows cb into same-module
+// helpers it is handed to. below(i, b) proves i < n at block b of fn.
+func domainWalk(c *Ctx, r *RuleResult, fn *ssa.Function, P *Prover, cb ssa.Value, cbName, nName string, below func(i Poly, b *ssa.BasicBlock) bool, depth int) {
+	fnName := c.short(fn)
+	for _, b := range fn.Blocks {
+		for _, in := range b.Instrs {
+			call, ok := in.(*ssa.Call)
+			if !ok || call.Call.Value != cb {
+				continue
+			}
+			i, j := P.poly(call.Call.Args[0]), P.poly(call.Call.Args[1])
+			desc := fmt.Sprintf("%s(%s, %s)", cbName, P.showTerm(i), P.showTerm(j))
+			r.inst("%s: %s", fnName, desc)
+			g1 := P.Prove(j.scale(-1), b)
+			g2 := P.Prove(j.add(i, -1).add(constP(1), 1), b)
+			g3 := below(i, b)
+			r.oblig(g1)
+			r.oblig(g2)
+			r.oblig(g3)
+			if !(g1 && g2 && g3) {
+				r.find(fnName+":"+desc, c.instrPos(in), "%s calls %s outside 0 <= j < i < %s (j>=0:%v j<i:%v i<%s:%v)", fnName, desc, nName, g1, g2, nName, g3)
+			}
+		}
+	}
+	// where else the callback value goes
+	refs := cb.Referrers()
+	if refs == nil {
+		return
+	}
+	for _, ref := range *refs {
+		switch x := ref.(type) {
+		case *ssa.Call:
+			if x.Call.Value == cb {
+				continue
+			}
+			callee := x.Call.StaticCallee()
+			if callee == nil || !c.inModule(callee) || len(callee.Blocks) == 0 || depth >= 3 || callee.Signature.Recv() != nil && len(callee.Params) != len(x.Call.Args) {
+				r.undecided("%s hands %s to %s, which this rule cannot follow; its call domain is not decided", fnName, cbName, x.Call.Value.Name())
+				continue
+			}
+			Q := NewProver(c, callee)
+			// integer parameters of the helper whose argument is provably <= n at the call
+			var bounded []ssa.Value
+			var cbIn []ssa.Value
+			for k, a := range x.Call.Args {
+				if k >= len(callee.Params) {
+					break
+				}
+				if a == cb {
+					cbIn = append(cbIn, callee.Params[k])
+					continue
+				}
+				if isInt(a.Type()) && below(P.poly(a).add(constP(-1), 1), x.Block()) {
+					bounded = append(bounded, callee.Params[k])
+				}
+			}
+			for _, cp := range cbIn {
+				domainWalk(c, r, callee, Q, cp, cp.Name(), nName, func(i Poly, b *ssa.BasicBlock) bool {
+					for _, bp := range bounded {
+						if Q.Prove(i.add(Q.poly(bp), -1).add(constP(1), 1), b) {
+							return true
+						}
+					}
+					return false
+				}, depth+1)
+			}
+		case *ssa.DebugRef:
+		default:
+			r.undecided("%s uses %s other than by calling it or handing it to a helper (stored or captured); its call domain is not decided", fnName, cbName)
+		}
+	}
+}
+
 func ruleDomain(c *Ctx, fnName, cbParam, nParam string) *RuleResult {
 	r := &RuleResult{Rule: "DOMAIN", Doc: "every call of the weight callback has arguments (i, j) with 0 <= j < i < n", MinInst: 1}
 	fn := c.Fn(fnName)
@@ -490,38 +563,8 @@ func ruleDomain(c *Ctx, fnName, cbParam, nParam string) *RuleResult {
 	if n == nil || cb == nil {
 		failf("%s: parameters %s / %s not found", fnName, cbParam, nParam)
 	}
-	for _, b := range fn.Blocks {
-		for _, in := range b.Instrs {
-			call, ok := in.(*ssa.Call)
-			if !ok || call.Call.Value != cb {
-				continue
-			}
-			i, j := P.poly(call.Call.Args[0]), P.poly(call.Call.Args[1])
-			desc := fmt.Sprintf("%s(%s, %s)", cbParam, P.showTerm(i), P.showTerm(j))
-			r.inst("%s: %s", fnName, desc)
-			g1 := P.Prove(j.scale(-1), b)
-			g2 := P.Prove(j.add(i, -1).add(constP(1), 1), b)
-			g3 := P.Prove(i.add(P.poly(n), -1).add(constP(1), 1), b)
-			r.oblig(g1)
-			r.oblig(g2)
-			r.oblig(g3)
-			if !(g1 && g2 && g3) {
-				r.find(fnName+":"+desc, c.instrPos(in), "%s calls %s outside 0 <= j < i < %s (j>=0:%v j<i:%v i<%s:%v)", fnName, desc, nParam, g1, g2, nParam, g3)
-			}
-		}
-	}
-	// the callback value must not escape to other callees
-	for _, ref := range *cb.Referrers() {
-		switch x := ref.(type) {
-		case *ssa.Call:
-			if x.Call.Value == cb {
-				continue
-			}
-			r.find(fnName+":"+cbParam+" escapes", c.instrPos(x), "%s passes %s to another function; its call domain is not decided", fnName, cbParam)
-		case *ssa.DebugRef:
-		default:
-			r.find(fnName+":"+cbParam+" escapes", c.instrPos(ref), "%s uses %s other than by calling it; its call domain is not decided", fnName, cbParam)
-		}
-	}
+	domainWalk(c, r, fn, P, cb, cbParam, nParam, func(i Poly, b *ssa.BasicBlock) bool {
+		return P.Prove(i.add(P.poly(n), -1).add(constP(1), 1), b)
+	}, 0)
 	return r
 }
